@@ -33,6 +33,8 @@
 #include "parsec/scheduling.h"
 #include "parsec/execution_stream.h"
 #include "parsec/mempool.h"
+#include "parsec/class/dequeue.h"
+#include "parsec/class/lifo.h"
 #include "parsec/mca/sched/sched.h"
 #include "parsec/mca/sched/sched_local_queues_utils.h"
 #include <mpi.h>
@@ -241,7 +243,7 @@ void *rank_main(void *arg)
             int s = SH->drain_stream[k];
             parsec_execution_stream_t *es = ES[s];
             parsec_set_my_execution_stream(es);
-            if (SH->drain_flush && NULL != es->next_task) {
+            if (NULL != es->next_task && schedh_drain_flush(s)) {
                 sched_req_t rq;
                 memset(&rq, 0, sizeof(rq));
                 rq.kind = SCH_REQ_FLUSH;
@@ -250,7 +252,8 @@ void *rank_main(void *arg)
                 int rc = __parsec_schedule_flush_private(es);
                 schedh_return(SCH_DRAINER, &rq, rc, next_id_of(es));
             }
-            while (!schedh_failed() && do_select(SCH_DRAINER, s, es, SH->drain_runtime_select) >= 0) got++;
+            /* a retained task that was not flushed is taken the way the runtime takes it */
+            while (!schedh_failed() && do_select(SCH_DRAINER, s, es, SH->drain_runtime_select || NULL != es->next_task) >= 0) got++;
         }
         empty_rounds = got ? 0 : empty_rounds + 1;
     }
